@@ -182,7 +182,7 @@ func (r *Run) Probe(name string) { r.Stats["probe:"+name]++ }
 // open known finding it is recorded and the run continues; otherwise
 // the run is aborted.
 func (r *Run) Violate(kind, format string, args ...interface{}) {
-	v := Violation{Property: r.Prop, Kind: kind, Detail: fmt.Sprintf(format, args...)}
+	v := Violation{Property: r.Prop, Kind: kind, Detail: oneLine(fmt.Sprintf(format, args...))}
 	if !r.IgnoreKnown {
 		if k := matchKnown(v); k != nil {
 			r.KnownHits[k.ID]++
@@ -195,6 +195,24 @@ func (r *Run) Violate(kind, format string, args ...interface{}) {
 	}
 	r.Logf("VIOLATION %s", v.String())
 	panic(violationPanic{v})
+}
+
+// oneLine escapes control characters (file names in the worlds may hold
+// line feeds, tabs, escape sequences): a violation is reported on one
+// line, and the patterns of the known findings are matched against one.
+func oneLine(s string) string {
+	if strings.IndexFunc(s, func(c rune) bool { return c < 32 || c == 127 }) < 0 {
+		return s
+	}
+	var sb strings.Builder
+	for _, c := range s {
+		if c < 32 || c == 127 {
+			fmt.Fprintf(&sb, "\\x%02x", c)
+		} else {
+			sb.WriteRune(c)
+		}
+	}
+	return sb.String()
 }
 
 // Result is what a run reports to the supervisor.
